@@ -6,6 +6,8 @@ import textwrap
 VERIF = os.path.dirname(os.path.dirname(os.path.abspath(__file__)))
 rows = []
 for d in sorted(os.listdir(os.path.join(VERIF, "seeded"))):
+    if not os.path.isdir(os.path.join(VERIF, "seeded", d)):
+        continue
     m = json.load(open(os.path.join(VERIF, "seeded", d, "meta.json")))
     first = " ".join(m.get("needs_to_manifest", "").split())
     first = first[:230] + ("..." if len(first) > 230 else "")
